@@ -185,6 +185,9 @@ func addLifeStuff(r rng, p *sdl.Program) {
 	classes := []string{"plain", "inst", "smart"}
 	for i := 1; i <= n; i++ {
 		pr := &sdl.Proc{ID: fmt.Sprintf("pp%d", i), Class: pick(r, classes), OrderClass: pick(r, orderClasses), Order: pick(r, orderVals), Props: r.p(0.5), Lazy: r.p(0.35)}
+		if pr.Props {
+			pr.PropsRet = pick(r, []string{"", "", "empty", "same"})
+		}
 		if pr.OrderClass != "" && r.p(0.3) {
 			// the processor settles its order in its component-factory hook
 			raw := pick(r, orderVals)
@@ -252,6 +255,22 @@ func genClose(r rng, seed uint64, id string) *sdl.Program {
 			}
 			ni++
 			p.Instances = append(p.Instances, inst)
+		}
+	}
+	// closers that hold the application component and are created before it (their names sort
+	// in front of the App's): the App reaches them while they are still in creation
+	if r.p(0.2) {
+		for _, i := range p.Instances {
+			if t := p.TypeByName(i.Type); t.Role == "closer" && !t.Lazy && r.p(0.5) {
+				hasApp := false
+				for _, pt := range t.Points {
+					hasApp = hasApp || pt.Kind == sdl.KApp
+				}
+				if !hasApp {
+					t.Points = append(t.Points, &sdl.Point{Field: "FA", Kind: sdl.KApp, Sel: sdl.SelType})
+				}
+				i.Alias = "a-" + i.ID
+			}
 		}
 	}
 	// zero-size closers (distinct field-less types may share one address)
@@ -627,7 +646,7 @@ func genConfig(r rng, seed uint64, id string, merge bool) *sdl.Program {
 	// user processors interleave with the built-in configuration stages
 	classes := []string{"inst", "smart", "plain"}
 	for i := 0; i < r.n(0, 3); i++ {
-		p.Procs = append(p.Procs, &sdl.Proc{ID: fmt.Sprintf("pp%d", i), Class: pick(r, classes), OrderClass: pick(r, orderClasses), Order: pick(r, []int{-5, 0, 1, 3, 4, 6, 9, 20}), Props: r.p(0.6), Lazy: r.p(0.3)})
+		p.Procs = append(p.Procs, &sdl.Proc{ID: fmt.Sprintf("pp%d", i), Class: pick(r, classes), OrderClass: pick(r, orderClasses), Order: pick(r, []int{-5, 0, 1, 3, 4, 6, 9, 20}), Props: r.p(0.6), Lazy: r.p(0.3), PropsRet: pick(r, []string{"", "", "empty", "same"})})
 	}
 	return p
 }
